@@ -622,6 +622,11 @@ func (g *gen) list(depth int) *blk {
 	n := g.r.Range(1, 4)
 	for i := 0; i < n; i++ {
 		var item []*blk
+		if !g.no("list:empty-item") && g.r.Intn(12) == 0 {
+			g.f("list:empty-item")
+			b.items = append(b.items, nil)
+			continue
+		}
 		if b.loose {
 			item = g.blocks(g.r.Range(1, 3), depth)
 		} else {
@@ -656,12 +661,20 @@ func (g *gen) list(depth int) *blk {
 					if nl.k == kOrdered {
 						nl.start = 1 // only an ordered list starting at 1 can interrupt a paragraph
 					}
+					if len(nl.items[0]) == 0 {
+						nl.items[0] = []*blk{g.paragraph(false)} // an empty item cannot interrupt a paragraph
+					}
 					item = append(item, nl)
 				}
 			}
 		}
 		if item[0].k == kBreak {
 			item[0].brk = "___" // "- ---" or "* * *" would be a thematic break, not an item
+		}
+		if l := item[0]; isList(l) && len(l.items[0]) == 0 {
+			// "- -" is fine but "- - -" would be a thematic break: a list that shares its
+			// first line with an item marker does not begin with an empty item
+			l.items[0] = []*blk{g.paragraph(false)}
 		}
 		b.items = append(b.items, item)
 	}
